@@ -12,6 +12,7 @@ when a poll delivered only part of the announced chain (a block download failed)
 block is recorded ahead of what was delivered (`partial_poll_records_undelivered_tip`, known finding).
 -/
 import TeosVerif.Model.Crash
+import TeosVerif.Lemmas.TowerJust
 import TeosVerif.Lemmas.Tower
 import TeosVerif.Lemmas.TowerInv
 
@@ -356,5 +357,63 @@ theorem restart_is_consistent (cfg : Cfg) (s : Tower) (h : TInv s) (height : Nat
     (blocks : List (Nat × List TxId)) (hnd : (blocks.map (·.1)).Nodup) :
     TInv (boot s.db height blocks) :=
   tinv_boot s.db height blocks h.db hnd
+
+/-! ### histories with restarts -/
+
+/-- one item of a history that may stop and start the tower: an operation with the node behaviour it meets, or
+a restart on the same database with whatever recent blocks the node then hands to the bootstrap -/
+inductive Item where
+  | op (node : Node) (o : Op)
+  | restart (height : Nat) (blocks : List (Nat × List TxId))
+
+def stepR (cfg : Cfg) (s : Tower) : Item → Tower
+  | .op node o => (step cfg s node o).1
+  | .restart h bl => boot s.db h bl
+
+def runR (cfg : Cfg) (s : Tower) (items : List Item) : Tower := items.foldl (stepR cfg) s
+
+def ItemValid (s : Tower) : Item → Prop
+  | .op _ o => OpValid s o
+  | .restart _ bl => (bl.map (·.1)).Nodup
+
+def ValidR (cfg : Cfg) : Tower → List Item → Prop
+  | _, [] => True
+  | s, it :: rest => ItemValid s it ∧ ValidR cfg (stepR cfg s it) rest
+
+/-- **consistent_through_restarts**: the tower's invariant (no abort, referential integrity of the file,
+memory = file for the users, index consistent with the blocks fed) holds after ANY history in which the
+process is also stopped and started again any number of times, at any point, on any recent blocks -/
+theorem consistent_through_restarts (cfg : Cfg) : ∀ (items : List Item) (s : Tower), TInv s →
+    ValidR cfg s items → TInv (runR cfg s items)
+  | [], _, h, _ => h
+  | it :: rest, s, h, hv => by
+    unfold runR
+    simp only [List.foldl_cons]
+    have h1 : TInv (stepR cfg s it) := by
+      cases it with
+      | op node o => exact tinv_step cfg s node o h hv.1
+      | restart ht bl => exact tinv_boot s.db ht bl h.db hv.1
+    exact consistent_through_restarts cfg rest _ h1 hv.2
+
+/-- … and what is held stays justified: after any such history every tracker row still has its appointment
+row, whose blob decrypts to the tracker's penalty under a dispute seen in a connected block or in the recent
+blocks handed to a bootstrap -/
+theorem justified_through_restarts (cfg : Cfg) : ∀ (items : List Item) (s : Tower) (seen : List TxId),
+    Just s seen → ∃ seen', (∀ x, x ∈ seen → x ∈ seen') ∧ Just (runR cfg s items) seen'
+  | [], s, seen, h => ⟨seen, fun _ hx => hx, h⟩
+  | it :: rest, s, seen, h => by
+    unfold runR
+    simp only [List.foldl_cons]
+    cases it with
+    | op node o =>
+      have so := stepOk_step cfg s seen node o h
+      obtain ⟨seen', hs, hj⟩ := justified_through_restarts cfg rest (step cfg s node o).1 (seen ++ opTxs o) so.just
+      exact ⟨seen', fun x hx => hs x (List.mem_append.2 (Or.inl hx)), hj⟩
+    | restart ht bl =>
+      have hb : Just (boot s.db ht bl) (seen ++ bl.flatMap (·.2)) :=
+        just_boot s.db ht bl _ (h.trk.mono (fun x hx => List.mem_append.2 (Or.inl hx)))
+          (fun b hb x hx => List.mem_append.2 (Or.inr (List.mem_flatMap.2 ⟨b, hb, hx⟩)))
+      obtain ⟨seen', hs, hj⟩ := justified_through_restarts cfg rest (boot s.db ht bl) _ hb
+      exact ⟨seen', fun x hx => hs x (List.mem_append.2 (Or.inl hx)), hj⟩
 
 end Teos.C03
